@@ -150,6 +150,22 @@ def run_mc(module, cfg, workers=None, timeout=1500, extra=None, simulate=None, c
     return st
 
 
+def run_apalache(module, inv, timeout=600):
+    """unbounded supplement: apalache-mc check --length=0 --inv=<inv> on apa/<module>.tla (initial values arbitrary)"""
+    out = os.path.join(WORK, "apa", module)
+    os.makedirs(out, exist_ok=True)
+    t0 = time.time()
+    try:
+        r = subprocess.run(["apalache-mc", "check", "--length=0", "--inv=" + inv, "--out-dir=" + out, module + ".tla"],
+                           cwd=os.path.join(ROOT, "apa"), capture_output=True, text=True, timeout=timeout)
+    except subprocess.TimeoutExpired:
+        raise ToolError("apalache timeout")
+    ok = "The outcome is: NoError" in r.stdout
+    shutil.rmtree(out, ignore_errors=True)
+    return dict(module=module, invariant=inv, ok=ok, wall=round(time.time() - t0, 1),
+                tool="apalache-mc check --length=0 (all natural numbers)")
+
+
 def mc_cases(st):
     """CASE records printed by a model checking run"""
     for line in open(st["out"], errors="replace"):
